@@ -374,7 +374,9 @@ const SPECIAL: &[&str] = &[
     "..;", " ..", ".. ", "%2e", "%2F..", "\u{ff0e}\u{ff0e}", "%ff", "*",
 ];
 
-const ROUTES: &[&str] = &["/static/*", "/*", "/s*", "*", "/static/", "/st\u{e4}tic/*", "/a/*/b*"];
+const ROUTES: &[&str] = &["/static/*", "/*", "/s*", "*", "/static/", "/st\u{e4}tic/*", "/a/*/b*",
+                          // prefixes whose length differs in characters and bytes by more than one
+                          "/\u{65e5}\u{672c}/*", "/donn\u{e9}es-\u{e9}t\u{e9}/*", "/\u{e9}\u{e9}/*", "/\u{1f600}/*"];
 
 /// A URI under the literal prefix of `route` (everything before its first `*`).
 fn under_route(route: &str, path: &str) -> String {
